@@ -896,6 +896,9 @@ def _expand_when_stmt_element(
             group_match_elements[case_idx].append([])
             group_assignment_elements[case_idx].append([])
             for group_element in and_group["elements"]:
+                # The same element can be part of several and-groups after the
+                # normalization (e.g. `a and (b or c)`), so we work on a copy.
+                group_element = copy.deepcopy(group_element)
                 match_element = copy.deepcopy(group_element)
                 ref_uid = None
                 temp_ref_uid: str
